@@ -2350,7 +2350,7 @@ func (fr *Frame) call(st *State, x *ssa.Call) bool {
 	callee := x.Call.StaticCallee()
 	if callee == nil {
 		c.note("%s: dynamic call abstracted", fr.fname)
-		setRes(Val{c.fresh("dyn", c.sortOf(x.Type())), x.Type()})
+		setRes(fr.opaqueResults(st, "dyn", x.Type())...)
 		return true
 	}
 	full := callee.String()
@@ -2507,16 +2507,8 @@ func (fr *Frame) call(st *State, x *ssa.Call) bool {
 	if callee.Blocks == nil || callee.Pkg == nil || !strings.HasPrefix(callee.Pkg.Pkg.Path(), "github.com/juev/hledger-lsp") {
 		c.note("%s: external call %s abstracted", fr.fname, full)
 		if x.Type() != nil {
-			if tu, ok := x.Type().(*types.Tuple); ok {
-				var vs []Val
-				for i := 0; i < tu.Len(); i++ {
-					vs = append(vs, Val{c.fresh("ext", c.sortOf(tu.At(i).Type())), tu.At(i).Type()})
-				}
-				if len(vs) > 0 {
-					setRes(vs...)
-				}
-			} else {
-				setRes(Val{c.fresh("ext", c.sortOf(x.Type())), x.Type()})
+			if vs := fr.opaqueResults(st, "ext", x.Type()); len(vs) > 0 {
+				setRes(vs...)
 			}
 		}
 		return true
@@ -2528,16 +2520,8 @@ func (fr *Frame) call(st *State, x *ssa.Call) bool {
 	}
 	if callee.Pkg != c.pkg && c.cs.Funcs[key] == nil && !isLeaf(callee) {
 		c.note("%s: call to %s (other package, not a leaf) abstracted", fr.fname, full)
-		if tu, ok := x.Type().(*types.Tuple); ok {
-			var vs []Val
-			for i := 0; i < tu.Len(); i++ {
-				vs = append(vs, Val{c.fresh("ext", c.sortOf(tu.At(i).Type())), tu.At(i).Type()})
-			}
-			if len(vs) > 0 {
-				setRes(vs...)
-			}
-		} else if x.Type() != nil {
-			setRes(Val{c.fresh("ext", c.sortOf(x.Type())), x.Type()})
+		if vs := fr.opaqueResults(st, "ext", x.Type()); len(vs) > 0 {
+			setRes(vs...)
 		}
 		return true
 	}
@@ -2750,6 +2734,33 @@ func (fr *Frame) applyContract(st *State, x *ssa.Call, callee *ssa.Function, fc 
 		setRes(res...)
 	}
 	return true
+}
+
+// opaqueResults: the results of a call that is abstracted (library, dynamic or uncontracted cross-package call): arbitrary
+// values that satisfy the invariants of their types (ranges of sized integers, well-formed slices, allocated references).
+func (fr *Frame) opaqueResults(st *State, hint string, t types.Type) []Val {
+	c := fr.ctx
+	if t == nil {
+		return nil
+	}
+	var ts []types.Type
+	if tu, ok := t.(*types.Tuple); ok {
+		for i := 0; i < tu.Len(); i++ {
+			ts = append(ts, tu.At(i).Type())
+		}
+	} else {
+		ts = []types.Type{t}
+	}
+	var vs []Val
+	for _, ty := range ts {
+		v := Val{c.fresh(hint, c.sortOf(ty)), ty}
+		for _, f := range c.typeInv(v.T, ty, 0) {
+			fr.assume(st, f)
+		}
+		fr.assumeAllocated(st, v, fr.allocTerm(st))
+		vs = append(vs, v)
+	}
+	return vs
 }
 
 // assumeAllocated: a reference (or slice) produced by a callee was allocated no later than bound.
